@@ -7,31 +7,31 @@ sys.path.insert(0, here)
 CLAIMS = {
  # id: (technique, level text, level note, design ref)
  "C01": ("regex syntax-tree analysis (nullability, zero-width stops, cascade order, exponential ambiguity via NFA self-product) + who-may-write and provenance rules over the lexer's AST",
-         "Decides structural necessary conditions of 'no character dropped/duplicated' and of the polynomial time bound for every template string: cursor ownership and strict progress, every zero-width way of matching has a guaranteed consumer, cascade order by literal prefix, verbatim flow of text into the emitted write, no exponentially ambiguous regex reachable from Lexer.parse, CR/LF handling in consuming terminators, line-count accounting. It does not decide what each regex matches on every string.",
+         "Decides structural necessary conditions of 'no character dropped/duplicated' and of the polynomial time bound for every template string: cursor ownership and strict progress, every zero-width way of matching has a guaranteed consumer, cascade order by literal prefix, verbatim flow of text into the emitted write, no exponentially ambiguous regex reachable from Lexer.parse, CR/LF handling in consuming terminators, line-count accounting, termination of the pygen line scanners (every trip round their loop shortens the line), the text regex stops wherever an earlier matcher can begin (product of prefix automata), what the text matcher and the coding-comment skip may consume without a node (finite language / newline bound), regex match results are dereferenced only under a test. It does not decide what each regex matches on every string.",
          "trusts re._parser trees and the representative-alphabet partition; node boundaries/positions for arbitrary input and Unicode behaviour of \\s/\\w are not decided", "4/C01"),
  "C02": ("symbolic evaluation of create_filter_callable over its guard atoms + call-site and table cross-checks",
-         "Decides for every configuration (guard-atom assignment) the composition order of default/page/local filters, the nesting order of the emitted calls, which sites apply expression defaults, and that every built-in flag resolves to the documented function. Does not decide the expression scanner on arbitrary nesting.",
+         "Decides for every configuration (guard-atom assignment) the composition order of default/page/local filters, the nesting order of the emitted calls, which sites apply expression defaults, that every built-in flag resolves to the documented function (flag table and what the names are bound to), that the configured filter lists are never extended in place, and that the printer alters an emitted expression only in front of its first line. Does not decide the expression scanner on arbitrary nesting.",
          "trusts the abstract evaluation of list concatenation / membership tests; filter arguments re-emission is under C19", "4/C02"),
  "C03": ("abstract model of emitted code (skeleton programs) checked for well-formedness and loop-stack typestate; keyword-table cross-check; regex alphabet projection; linear-form comparison of LoopContext members",
-         "Decides that every control-line / block shape the generator can emit is well-formed under the printer's own indentation tables, that the loop context push/pop/rebind is paired on every exit (exhaustion, break, exception, return) for every template, that loop emission is guarded by enable_loop, and the algebra of LoopContext members. Does not decide equivalence with Python semantics of user code.",
+         "Decides that every control-line / block shape the generator can emit is well-formed under the printer's own indentation tables, that the loop context push/pop/rebind is paired on every exit (exhaustion, break, exception, return) for every template, that loop emission is guarded by an enable_loop flag that is only ever raised, the LoopStack discipline (parent = top at push), which child list the auto-`pass` decision reads, that the text regex stops before every % line however it is indented, and the algebra of LoopContext members. Does not decide equivalence with Python semantics of user code.",
          "trusts the checker's re-implementation of PythonPrinter.writeline parameterised by pygen's regexes", "4/C03"),
  "C04": ("CFG dominance, ownership/write-effect rule over runtime.py, sibling agreement, emitted-skeleton inspection",
          "Decides: reserved-name checks dominate rendering and compilation on all paths; Context data is only mutated on private copies (API never hands out the shared dict); the lookup siblings agree on order (data, builtins); strict_undefined emission raises NameError and import namespaces precede the context. The scope analysis of _Identifiers itself is not decided.",
          "Python scoping semantics are not modelled", "4/C04"),
  "C05": ("typestate dataflow over the CFGs of reconstructed skeleton programs for every flag assignment (buffered x filtered x cached x callstack x in_def x decorator), with effect summaries derived from runtime.py",
-         "Decides for every template and every raise/return point: caller-frame, buffer and writer pairing of top-level defs, inline defs and calls with content; return convention per flag combination; nextcaller arm/disarm; agreement of the two def emitters and the cache wrapper; ParseFunc reads every ast.arguments field. Python's argument binding is not decided.",
+         "Decides for every template and every raise/return point: caller-frame, buffer and writer pairing of top-level defs, inline defs and calls with content; return convention per flag combination; nextcaller arm/disarm; agreement of the two def emitters and the cache wrapper; ParseFunc reads every ast.arguments field; mixed attribute values keep every non-empty piece in order; nested defs shadow top-level defs of the same name. Python's argument binding is not decided.",
          "covers what the generator can emit; user code is an opaque may-raise/return region", "4/C05"),
  "C06": ("emitted-skeleton guard inspection, who-may-write on def registries, sibling order comparison of __getattr__ implementations, provenance in _inherit_from",
          "Decides the compile-time sentences (duplicate/misplaced blocks rejected on every path) and the shape of dispatch (block guard, self-dispatch, lookup order callables->own->inherits in all namespace kinds, inherits/parent/local wiring). Dispatch results for arbitrary chains are not decided.",
          "run-time linked list of namespaces not enumerated", "4/C06"),
  "C07": ("call-graph single-gateway rule, parameter-flow (accepted-but-dropped parameter) rule, emitted-call inspection, effect summary of _clean_inheritance_tokens",
-         "Decides: every template lookup at run time goes through one gateway that adjusts the URI relative to the calling template and translates the exception; every emitted/include/namespace site passes the calling URI and each receiver uses it; included templates and namespaces get a context stripped of exactly self/parent/next; include args take precedence over context. URI arithmetic for all spellings is not decided.",
+         "Decides: every template lookup at run time goes through one gateway that adjusts the URI relative to the calling template and translates the exception; every emitted/include/namespace site passes the calling URI and each receiver uses it; included templates and namespaces get a context stripped of exactly self/parent/next; include args take precedence over context; memo keys hold what the memoised value depends on; the import= flag is monotone; anonymous namespaces get unique names. URI arithmetic for all spellings is not decided.",
          "posixpath.join/dirname semantics trusted", "4/C07"),
  "C08": ("determinism lint (set-typed iteration reaching emission), writer/reader agreement of module attributes and metadata, taint rule for lossy identity keys, pipeline-wiring comparison",
          "Decides: no hash-order dependent emission that can change meaning; every module attribute/metadata key read is written under the same name; render_ prefix agrees at all sites; registry key injectivity; both compile paths and all render entry points share one pipeline with identical wiring. Equality of outputs across paths as such is not decided.",
          "type lattice is definite-only; summaries of ModuleType/load_module naming trusted", "4/C08"),
  "C09": ("CFG dominance of the containment guard + op-chain (provenance) agreement of the two URI normalisers + who-may-open scan",
-         "Decides for every URI: the '..' guard dominates every source read and module-path derivation; lookup and Template canonicalise identically (backslash->slash, strip leading slashes, normpath) in a safe order, strip before join; module path derives from the validated value only; the uri given to Template is the one whose normal form located the file; no other file-reading primitive in runtime/lookup.",
+         "Decides for every URI: the '..' guard dominates every source read and module-path derivation; lookup and Template canonicalise identically (backslash->slash, strip leading slashes, normpath) in a safe order, strip before join; module path derives from the validated value only; the uri given to Template is the one whose normal form located the file; no other file-reading primitive in runtime/lookup; a file-system probe on a URI-derived path only leads to _load; the normaliser chain removes every leading run of / and \\ up to length 4 (evaluated on the extracted chain); module files are created beside their final path.",
          "posixpath.normpath/join semantics trusted; symlinks, Windows semantics and user modulename_callable not decided", "4/C09"),
  "C10": ("regex character-class vs table agreement, type-flow through the codec error handler, structural checks of the small filters",
          "Decides: xml_escape's class equals its table and covers the five markup characters; the entity escaper's class covers markup + all non-ASCII so the ASCII encode cannot fail; the error handler returns (str, int) and never the repr of bytes; Decode returns str on every branch; trim/url_escape/html_escape bindings. 'For every string' behaviour of markupsafe/urllib/codecs is trusted, round trips not decided.",
@@ -64,7 +64,7 @@ CLAIMS = {
          "Decides: the expression re-emitter handles every expression node class, operator and arguments field of the grammar (or delegates to ast.unparse), parenthesises loosely binding forms; FindIdentifiers visits every child field and binds every parameter kind; each parsetree consumer subtracts self-bound names; the two multi-line scanners track the same lexical features. Evaluation equality is not decided.",
          "CPython's ast metadata is the grammar reference", "4/C19"),
  "C20": ("dispatch exhaustiveness of extract_nodes against parsetree's Python-bearing fields, descent rule, offset algebra, sub-span rule",
-         "Decides: every Python-bearing field parsetree parses for the constructs in the statement (incl. filters and namespace children) is in the code the extractor scans, tags with Python-bearing children are descended, nothing is produced for Text/TextTag/Comment, and line offsets compensate the prepended newline. Babel/Lingua behaviour and the translator-comment window are not decided.",
+         "Decides: every Python-bearing field parsetree parses for the constructs in the statement (incl. filters and namespace children) is in the code the extractor scans, tags with Python-bearing children are descended, nothing is produced for Text/TextTag/Comment, line offsets compensate the prepended newline on the Babel and on the Lingua path (stripped leading lines are counted, elif scanned as if), translator-comment collection starts at a tagged comment (every configured tag tried, no empty tag) and ends at every other node on every path. What Babel's/Lingua's Python extractors find inside a fragment is not decided.",
          "Babel/Lingua extract_python trusted", "4/C20"),
 }
 
